@@ -67,7 +67,7 @@ void pkt_to_ogg(const pkt_t *p, ogg_packet *op){
 
 /* ================= signals ================= */
 static const char *signames[SIG_NKINDS]={"silence","dc","tone","multi","noise","clicks","sweep","over10x",
-  "denormal","alt","bursts","impulse","endclick"};
+  "denormal","alt","bursts","impulse","endclick","gated","wide"};
 const char *sig_name(int k){ return (k>=0&&k<SIG_NKINDS)?signames[k]:"?"; }
 static inline double unit_hash(uint64_t a){ return (hash64(a)>>11)*(1.0/9007199254740992.0); }
 float sig_sample(int kind, uint64_t seed, int ch, long i, long rate, long nsamples){
@@ -95,6 +95,13 @@ float sig_sample(int kind, uint64_t seed, int ch, long i, long rate, long nsampl
     { uint64_t g=hash64(cs^(uint64_t)(i/31)); return ((i%31)==(long)(g%31))?0.95f:0.f; } }
   case SIG_IMPULSE: return (i==nsamples/3 || i==(2*nsamples)/3+ch)?1.f:0.f;
   case SIG_ENDCLICK: return (i>=nsamples-3)?0.9f:(float)(0.05*sin(2*M_PI*440*t));
+  case SIG_GATED: { long seg=i/(rate/8>0?rate/8:1); uint64_t h=hash64(cs+seg*131);
+    if(h%3==0) return 0.f;                       /* exact digital silence, channel by channel */
+    return sig_sample(SIG_MULTI,seed,ch,i,rate,nsamples); }
+  case SIG_WIDE: {
+    double env=0.4+0.25*sin(2*M_PI*1.13*t+ch)+0.15*sin(2*M_PI*0.61*t*(1+0.07*ch));
+    double s=0; for(int k=0;k<7;k++){ double f=rate*(0.01+0.06*k+0.004*ch+0.012*unit_hash(cs+k+40)); s+=sin(2*M_PI*f*t+1.3*k); }
+    return (float)(0.12*env*s); }
   }
   return 0.f;
 }
@@ -106,9 +113,9 @@ void enccfg_default(enccfg_t *c){
   c->chunk=CHUNK_1024;
 }
 void enccfg_json(const enccfg_t *c, char *out, size_t n){
-  snprintf(out,n,"ch=%d rate=%ld mode=%d q=%.3f br=%ld/%ld/%ld coff=%d lp=%.1f rm2=%d sig=%s N=%ld chunk=%d lazy=%d",
+  snprintf(out,n,"ch=%d rate=%ld mode=%d q=%.3f br=%ld/%ld/%ld coff=%d lp=%.1f rm2=%d sig=%s(seed %llu) N=%ld chunk=%d lazy=%d",
     c->channels,c->rate,c->mode,c->quality,c->br_max,c->br_nom,c->br_min,c->coupling_off,c->lowpass_khz,c->have_rm2,
-    sig_name(c->sig),c->nsamples,c->chunk,c->lazy);
+    sig_name(c->sig),(unsigned long long)c->sigseed,c->nsamples,c->chunk,c->lazy);
 }
 static void enc_drain(vorbis_dsp_state *vd, vorbis_block *vb, pktlist_t *pk){
   ogg_packet op;
@@ -265,7 +272,7 @@ void gen_chain(rng_t *r, int maxlinks, long maxN, int flags, chaindesc_t *d){
       c->mode=ENC_MANAGED; long nom=(long)(c->rate*c->channels*(0.9+rng_unit(r)*1.2)); c->br_nom=nom; c->br_max=-1; c->br_min=-1;
       if(rng_chance(r,0.5)) c->br_max=(long)(nom*1.3);
     }
-    c->sig=(int)rng_below(r,SIG_NKINDS); if(c->sig==SIG_DENORM||c->sig==SIG_SILENCE){ if(rng_chance(r,0.7)) c->sig=SIG_MULTI; }
+    c->sig=(int)rng_below(r,SIG_NCLASSIC); if(c->sig==SIG_DENORM||c->sig==SIG_SILENCE){ if(rng_chance(r,0.7)) c->sig=SIG_MULTI; }
     c->sigseed=rng_next(r);
     int nsel=(int)rng_below(r,100);
     if((flags&GC_ALLOW_EMPTY) && nsel<6) c->nsamples=0;
